@@ -1,6 +1,8 @@
 """C20 — financial functions satisfy their defining equations (DESIGN.md §4 C20).
 
-Real code (xl.FUNCTIONS[...] in-process, and through ModelCompiler/Evaluator formulas) against
+Real code (xl.FUNCTIONS[...] in-process; through ModelCompiler/Evaluator formulas with the number literals in
+every spelling; through scenario histories — evaluate, set_cell_value on inputs, evaluate — on models whose
+cash-flow ranges are computed cells) against
   * the reference semantics `Spec.C20` evaluated exactly over Q by the Lean driver (NPV sum, annuity
     recursion for PV/PMT, SLN quotient, XNPV sum with harness-supplied weights), within 1e-9 relative to the
     gross size of the terms (floats are not exact here: IEEE rounding is not modelled), and
@@ -28,7 +30,11 @@ LEVEL_TEXT = (
     'discounted sum is strictly decreasing on (-1, inf) over every ordered field (irr_unique, xirr analogue '
     'for any power function with the order properties), so a sign change between r-1e-6 and r+1e-6 encloses '
     'every root (irr_certificate). IRR/XIRR answers are certified per input by that sign change; the other '
-    'functions are compared with the exact rational reference within 1e-9 relative.')
+    'functions are compared with the exact rational reference within 1e-9 relative. The correspondence reaches '
+    'the functions by direct calls, by formulas whose number literals are spelt every way Excel accepts for the '
+    'same number (.08 0.08 8% .8% 8E-2 8. +0.08 (0.08), negatives), and by scenario histories on one compiled '
+    'model (cash-flow and date ranges whose members are formulas over growth/step/gap input cells, re-evaluated '
+    'after set_cell_value on those inputs and judged on the current cell values).')
 LEVEL_NOTE = (
     'Trusted: Lean kernel (axioms propext, Classical.choice, Quot.sound); the hand model (validated by '
     'correspondence, not proved equal to the Python); IEEE rounding (results compared within 1e-9 relative); '
@@ -51,6 +57,9 @@ TRUSTED = [
     'the guard of known finding D2002 (scipy.optimize.newton fails on the reference XNPV of the rows the Lean '
     'model prepares) is evaluated by the harness with the library itself',
     'validate_args coercion of arguments is modelled in C08, here arguments arrive as numbers',
+    'the value a number literal denotes in a formula is computed by the harness from the decimal text (exact '
+    'fraction); the values of computed flow/date cells in the scenario histories are computed by the harness with '
+    'the same float operations as the cell formulas',
 ]
 ASSUMPTIONS = [
     'rates in (-0.9, 10]; |rate| < 1e-6 other than 0 excluded (cancellation in (1+r)^n-1 exceeds 1e-9)',
@@ -62,6 +71,12 @@ ASSUMPTIONS = [
     'IRR/XIRR: one sign change (first flow negative, the others non-negative), positive undiscounted sum, root '
     'at most 10; XIRR with the default guess or guesses in [0.01,0.5]; XIRR without a root is outside (D50)',
     'dates are whole-day serial numbers, strictly increasing; error arguments are C07\'s business; VDB excluded',
+    'number literals in formula text: decimal, percent, signed, parenthesised, and scientific notation only in the '
+    'normalised form d(.ddd)E[+-]x that Excel stores (DESIGN.md C01: 80E-3 or .8E-1 are not recognised by the '
+    'tokenizer and are outside the domain)',
+    'scenario histories: 3..12 flows, geometric / additive / power templates, 1..4 set_cell_value steps on inputs '
+    'inside or outside the ranges; IRR/XIRR are certified at the steps where the current flows are an outlay '
+    'followed by non-negative returns with positive total and root <= 10',
 ]
 
 EPS = Fraction(1, 10 ** 6)
@@ -514,11 +529,13 @@ def pvsum(r, vals):
     return sum(fr(v) / (1 + r) ** i for i, v in enumerate(vals))
 
 
-def irr_case(res, sink, F, vals, how='random'):
-    with warnings.catch_warnings():
-        warnings.simplefilter('ignore')
-        real = call_real(F['IRR'], as_range(vals, 0))
-    inp = {'fn': 'IRR', 'values': vals}
+def irr_case(res, sink, F, vals, how='random', real=None, inp=None):
+    """certify IRR of `vals`; `real` (wire) may be supplied by a caller that obtained it through a formula"""
+    if real is None:
+        with warnings.catch_warnings():
+            warnings.simplefilter('ignore')
+            real = call_real(F['IRR'], as_range(vals, 0))
+    inp = inp or {'fn': 'IRR', 'values': vals}
     rq = num_of(real)
     res.count('IRR:' + how)
     if rq is None or rq - EPS <= -1:
@@ -584,25 +601,29 @@ def ref_xirr(vals, ds, guess):
     return float(rate)
 
 
-def xirr_case(ctx, res, sink, F, vals, ds, guess=None, how='random'):
+def xirr_case(ctx, res, sink, F, vals, ds, guess=None, how='random', real=None, inp=None):
+    """certify XIRR of (`vals`, `ds`); `real` (wire) may be supplied by a caller that obtained it through a
+    formula (then the rows handed to the solver are not observed)"""
     from xlcalculator.xlfunctions import financial
     seen = {}
-    orig = financial._xirr
+    if real is None:
+        orig = financial._xirr
 
-    def spy(values, dates, g=None):
-        seen['series'] = ([float(v) for v in values], [float(d) for d in dates], g)
-        return orig(values, dates, g)
-    financial._xirr = spy
-    try:
-        with warnings.catch_warnings():
-            warnings.simplefilter('ignore')
-            args = (as_range(vals, 1), as_range(ds, 1)) + ((guess,) if guess is not None else ())
-            real = call_real(F['XIRR'], *args)
-    finally:
-        financial._xirr = orig
-    inp = {'fn': 'XIRR', 'values': vals, 'dates': ds}
-    if guess is not None:
-        inp['guess'] = guess
+        def spy(values, dates, g=None):
+            seen['series'] = ([float(v) for v in values], [float(d) for d in dates], g)
+            return orig(values, dates, g)
+        financial._xirr = spy
+        try:
+            with warnings.catch_warnings():
+                warnings.simplefilter('ignore')
+                args = (as_range(vals, 1), as_range(ds, 1)) + ((guess,) if guess is not None else ())
+                real = call_real(F['XIRR'], *args)
+        finally:
+            financial._xirr = orig
+    if inp is None:
+        inp = {'fn': 'XIRR', 'values': vals, 'dates': ds}
+        if guess is not None:
+            inp['guess'] = guess
     g = 0.1 if guess is None else guess
     rq = num_of(real)
     res.count('XIRR:' + how)
@@ -778,6 +799,412 @@ def formula_case(res, cells, direct, kind):
                                'expected': direct, 'got': got})
 
 
+# ---------------------------------------------------------------- literal spellings in formulas
+
+def dec_plain(d):
+    """positional notation of a Decimal without exponent and without superfluous zeros ('0.08', '1500')"""
+    t = format(d, 'f')
+    if '.' in t:
+        t = t.rstrip('0').rstrip('.')
+    return t or '0'
+
+
+SPELL_STYLES = ['plain', 'nolead', 'nolead', 'pct', 'pctnolead', 'trail0', 'dot', 'sci', 'scilow', 'scipos', 'plus',
+                'plusnolead', 'paren']
+
+
+def spell(neg, m, e, style):
+    """A formula-text spelling of the number (-1)^neg * m * 10^e (m a positive integer), or None when the
+    style does not apply.  Scientific notation only in the normalised form d(.ddd)E±x (DESIGN.md C01)."""
+    d = Decimal(m).scaleb(e)
+    plain = dec_plain(d)
+    t = None
+    if style == 'plain':
+        t = plain
+    elif style == 'nolead':
+        t = plain[1:] if plain.startswith('0.') else None
+    elif style in ('pct', 'pctnolead'):
+        q = dec_plain(d * 100)
+        if style == 'pctnolead':
+            q = q[1:] if q.startswith('0.') else None
+        t = q + '%' if q else None
+    elif style == 'trail0':
+        t = plain + '0' if '.' in plain else plain + '.0'
+    elif style == 'dot':
+        t = plain + '.' if '.' not in plain else None
+    elif style in ('sci', 'scilow', 'scipos'):
+        digits = str(m).rstrip('0')
+        ex = e + (len(str(m)) - len(digits)) + len(digits) - 1
+        mant = digits[0] + ('.' + digits[1:] if len(digits) > 1 else '')
+        if style == 'scipos':
+            t = f'{mant}E{ex}' if ex > 0 else None
+        else:
+            t = f'{mant}{"E" if style == "sci" else "e"}{ex:+d}'
+    elif style == 'plus':
+        t = None if neg else '+' + plain
+    elif style == 'plusnolead':
+        t = '+' + plain[1:] if (not neg and plain.startswith('0.')) else None
+    elif style == 'paren':
+        return '(' + ('-' if neg else '') + plain + ')'
+    if t is None:
+        return None
+    return ('-' if neg else '') + t
+
+
+def spelled(rng, neg, m, e):
+    """(text, exact value) with a random applicable spelling"""
+    for _ in range(20):
+        t = spell(neg, m, e, rng.choice(SPELL_STYLES))
+        if t is not None:
+            break
+    else:
+        t = spell(neg, m, e, 'plain')
+    return t, (-1 if neg else 1) * Fraction(m) * Fraction(10) ** e
+
+
+def rate_key(rng):
+    """(neg, m, e) of a rate in (-0.9, 10] with at most three significant digits, |rate| >= 1e-4"""
+    while True:
+        m, e = rng.randint(1, 999), rng.choice([-4, -3, -2, -2, -2, -1, -1, 0])
+        neg = rng.random() < 0.2
+        q = Fraction(m) * Fraction(10) ** e
+        if (neg and q >= Fraction(9, 10)) or q > 10:
+            continue
+        return neg, m, e
+
+
+def spelled_rate(rng):
+    return spelled(rng, *rate_key(rng))
+
+
+def spelled_amount(rng, neg=None, positive_only=False):
+    m, e = rng.randint(1, 99999), rng.choice([-2, -1, 0, 0, 1, 2])
+    if neg is None:
+        neg = (not positive_only) and rng.random() < 0.4
+    return spelled(rng, neg, m, e)
+
+
+def spelled_case(res, sink, kind, cells, req, what, in_domain=True):
+    """evaluate Sheet1!D1 of `cells` in a compiled model and judge it against the reference for the driver
+    request `req` (the exact values the spellings denote)"""
+    from xlcalculator import ModelCompiler, Evaluator
+
+    def ev():
+        m = ModelCompiler().read_and_parse_dict(dict(cells))
+        return Evaluator(m).evaluate('Sheet1!D1')
+    with warnings.catch_warnings():
+        warnings.simplefilter('ignore')
+        real = call_real(ev)
+    inp = {'fn': 'spelled', 'kind': kind, 'cells': dict(cells), 'req': list(req), 'what': what}
+    res.count('spelled:' + kind)
+    sink.add(list(req) + real_fields(real),
+             lambda d, line: judge_value(res, what + ' (number literals spelt the way Excel accepts them)', inp,
+                                         real, d, line, in_domain=in_domain))
+
+
+def spelled_identity_case(res, cells, rq, n, pvq, fvq):
+    """=PV(r,n,PMT(r,n,pv,fv),fv) typed with spelt literals must give back pv"""
+    from xlcalculator import ModelCompiler, Evaluator
+
+    def ev():
+        m = ModelCompiler().read_and_parse_dict(dict(cells))
+        return Evaluator(m).evaluate('Sheet1!D1')
+    with warnings.catch_warnings():
+        warnings.simplefilter('ignore')
+        back = call_real(ev)
+    res.evaluations += 1
+    res.count('spelled:PV(PMT)')
+    bq = num_of(back)
+    temp = (1 + rq) ** n
+    gross = (abs(pvq) * temp + 2 * abs(fvq)) / temp
+    inp = {'fn': 'spelled-identity', 'cells': dict(cells), 'rate': str(rq), 'nper': n, 'pv': str(pvq),
+           'fv': str(fvq)}
+    res.nontrivial.add(cells['Sheet1!D1'])
+    if bq is None or abs(bq - pvq) > TOL * 100 * max(gross, abs(pvq)):
+        res.violations.append({'what': 'PV(r,n,PMT(r,n,pv,fv),fv) through a formula with spelt literals is not pv',
+                               'input': inp, 'expected': float(pvq),
+                               'got': float(bq) if bq is not None else back})
+
+
+def sec_spellings(ctx, res, sink, F, n):
+    """rates and amounts typed into the formula text in every spelling Excel accepts for the same number:
+    0.08 .08 8% .8% 0.080 8. 8E-2 8e-2 1E3 +0.08 +.08 (0.08) and their negatives; the reference is evaluated
+    on the exact values the spellings denote"""
+    rng = ctx.rng
+    fixed = [('NPV', {'Sheet1!D1': '=NPV(.08,-1000,500,700)'}, ['NPV', '8/100', 'L:-1000,500,700']),
+             ('NPV', {'Sheet1!D1': '=NPV(-.25,-1000,500.,7E+2)'}, ['NPV', '-1/4', 'L:-1000,500,700']),
+             ('NPV', {'Sheet1!D1': '=NPV(8%,-1E3,5E+2,+700.0)'}, ['NPV', '8/100', 'L:-1000,500,700']),
+             ('PMT', {'Sheet1!D1': '=PMT(.05,10,1000,-200)'}, ['PMT', '1/20', '10', '1000', '-200', '0']),
+             ('PV', {'Sheet1!D1': '=PV(.05,10.,-100,50,1)'}, ['PV', '1/20', '10', '-100', '50', '1']),
+             ('SLN', {'Sheet1!D1': '=SLN(1000,100,.5)'}, ['SLN', '1000', '100', '1/2'])]
+    whats = {'NPV': 'NPV through a formula differs from sum c_i/(1+r)^i',
+             'PMT': 'PMT through a formula differs from the solution of the annuity equation',
+             'PV': 'PV through a formula differs from the solution of the annuity equation',
+             'SLN': 'SLN through a formula differs from (cost-salvage)/life',
+             'XNPV': 'XNPV through a formula differs from sum v_i/(1+r)^((d_i-d_1)/365)'}
+    for kind, cells, req in fixed:
+        spelled_case(res, sink, kind, cells, req, whats[kind])
+    for i in range(n):
+        kind = ['NPV', 'PMT', 'PV', 'SLN', 'NPVcells', 'XNPV', 'PVPMT'][i % 7]
+        cells = {}
+        if kind == 'NPV':
+            rt, rq = spelled_rate(rng)
+            flows = [spelled_amount(rng) for _ in range(rng.randint(1, 8))]
+            cells['Sheet1!D1'] = f'=NPV({rt},' + ','.join(t for t, _ in flows) + ')'
+            spelled_case(res, sink, 'NPV', cells, ['NPV', w_frac(rq), wl([q for _, q in flows])], whats['NPV'])
+        elif kind == 'NPVcells':
+            # the spelt numbers live in cells (as formulas `=.08`), the function reads a range of them
+            rt, rq = spelled_rate(rng)
+            flows = [spelled_amount(rng) for _ in range(rng.randint(1, 8))]
+            cells['Sheet1!A1'] = '=' + rt
+            for j, (t, _) in enumerate(flows):
+                cells[f'Sheet1!B{j + 1}'] = '=' + t
+            cells['Sheet1!D1'] = f'=NPV(A1,B1:B{len(flows)})'
+            spelled_case(res, sink, 'NPVcells', cells, ['NPV', w_frac(rq), wl([q for _, q in flows])], whats['NPV'])
+        elif kind in ('PMT', 'PV', 'PVPMT'):
+            while True:
+                key = rate_key(rng)
+                rt, rq = spelled(rng, *key)
+                n_ = rng.choice([1, 2, 5, 10, 12, 24, 60, 120, 360])
+                if representable(float(rq), n_):
+                    break
+            nt = rng.choice([str(n_), f'{n_}.', f'{n_}.0', spell(False, n_, 0, 'sci'), f'+{n_}'])
+            at, aq = spelled_amount(rng)
+            ft, fq = rng.choice([('0', Fraction(0)), spelled_amount(rng)])
+            if kind == 'PVPMT':
+                # PV(r, n, PMT(r, n, pv, fv), fv) = pv; the inner call spells the same rate differently
+                rt2 = spelled(rng, *key)[0]
+                cells['Sheet1!D1'] = f'=PV({rt},{nt},PMT({rt2},{n_},{at},{ft}),{ft})'
+                spelled_identity_case(res, cells, rq, n_, aq, fq)
+                continue
+            ty = rng.choice([0, 1]) if kind == 'PV' else 0
+            arity = 5 if ty else rng.choice([3, 4, 5])
+            if arity == 3:
+                fq = Fraction(0)
+            args = [rt, nt, at, ft, rng.choice([str(ty), f'{ty}.', f'+{ty}', f'{ty}.0'])][:arity]
+            cells['Sheet1!D1'] = f'={kind}(' + ','.join(args) + ')'
+            spelled_case(res, sink, kind, cells,
+                         [kind, w_frac(rq), str(n_), w_frac(aq), w_frac(fq), str(ty)], whats[kind])
+        elif kind == 'SLN':
+            ct, cq = spelled_amount(rng, positive_only=True)
+            st, sq = spelled_amount(rng, positive_only=True)
+            m, e = rng.randint(1, 999), rng.choice([-2, -1, 0])
+            lt, lq = spelled(rng, False, m, e)
+            cells['Sheet1!D1'] = f'=SLN({ct},{st},{lt})'
+            spelled_case(res, sink, 'SLN', cells, ['SLN', w_frac(cq), w_frac(sq), w_frac(lq)], whats['SLN'])
+        else:
+            rt, rq = spelled_rate(rng)
+            k = rng.randint(1, 8)
+            flows = [spelled_amount(rng) for _ in range(k)]
+            ds = rand_dates(rng, k, long_ok=False)
+            for j, ((t, _), d) in enumerate(zip(flows, ds)):
+                cells[f'Sheet1!A{j + 1}'] = '=' + t
+                cells[f'Sheet1!B{j + 1}'] = d
+            cells['Sheet1!D1'] = f'=XNPV({rt},A1:A{k},B1:B{k})'
+            ws = pow_weights(1 + rq, [Fraction(d - ds[0], 365) for d in ds])
+            spelled_case(res, sink, 'XNPV', cells,
+                         ['XNPV', w_frac(rq), wl([q for _, q in flows]), wl(ds), wl(ws)], whats['XNPV'])
+
+
+# ---------------------------------------------------------------- histories: computed flows, changed inputs
+
+def col_name(i):
+    """0 -> A, 25 -> Z, 26 -> AA"""
+    s = ''
+    i += 1
+    while i:
+        i, r = divmod(i - 1, 26)
+        s = chr(65 + r) + s
+    return s
+
+
+def history_layout(spec):
+    """Cells of a scenario model.  Inputs in column A (rows 30..): rate, growth, step, date gap, nper, pv, fv.
+    Flows: first the outlay and the first return as values, the later ones as formulas over the previous flow
+    and the growth/step inputs; dates: the first as a value, the later ones `previous + gap`."""
+    k, row_wise = spec['k'], spec['orient'] == 'row'
+
+    def flow(i):
+        return f'{col_name(1 + i)}1' if row_wise else f'B{1 + i}'
+
+    def date(i):
+        return f'{col_name(1 + i)}2' if row_wise else f'C{1 + i}'
+    dollar = (lambda a: '$A$' + a[1:]) if spec.get('abs') else (lambda a: a)
+    RATE, GROWTH, STEP, GAP, NPER, PV_, FV_ = ('A30', 'A31', 'A32', 'A33', 'A34', 'A35', 'A36')
+    inputs = spec['inputs']
+    cells = {RATE: inputs['rate'], GROWTH: inputs['growth'], STEP: inputs['step'], GAP: inputs['gap'],
+             NPER: inputs['nper'], PV_: inputs['pv'], FV_: inputs['fv'],
+             flow(0): inputs['outlay'], flow(1): inputs['first'], date(0): inputs['d0']}
+    for i in range(2, k):
+        if spec['template'] == 'geo':
+            cells[flow(i)] = f'={flow(i - 1)}*(1+{dollar(GROWTH)})'
+        elif spec['template'] == 'lin':
+            cells[flow(i)] = f'={flow(i - 1)}+{dollar(STEP)}'
+        else:
+            cells[flow(i)] = f'={flow(1)}*(1+{dollar(GROWTH)})^{i - 1}+{dollar(STEP)}'
+    for i in range(1, k):
+        cells[date(i)] = f'={date(i - 1)}+{dollar(GAP)}'
+    fr_, dr_ = f'{flow(0)}:{flow(k - 1)}', f'{date(0)}:{date(k - 1)}'
+    out = {'NPV': f'=NPV({RATE},{fr_})', 'IRR': f'=IRR({fr_})', 'XNPV': f'=XNPV({RATE},{fr_},{dr_})',
+           'XIRR': f'=XIRR({fr_},{dr_})', 'PMT': f'=PMT({RATE},{NPER},{PV_},{FV_})',
+           'PV': f'=PV({RATE},{NPER},{PV_},{FV_},1)', 'SLN': f'=SLN({PV_},{FV_},{NPER})',
+           'NPVrest': f'=NPV({RATE},{flow(1)}:{flow(k - 1)})+{flow(0)}'}
+    addr = {}
+    for j, (name, f) in enumerate(out.items()):
+        addr[name] = f'A{40 + j}'
+        cells[addr[name]] = f
+    names = {'rate': RATE, 'growth': GROWTH, 'step': STEP, 'gap': GAP, 'nper': NPER, 'pv': PV_, 'fv': FV_,
+             'outlay': flow(0), 'first': flow(1), 'd0': date(0)}
+    return {'Sheet1!' + a: v for a, v in cells.items()}, addr, names
+
+
+def history_values(spec, inputs):
+    """the values the flow and date cells have for the current inputs (the same float operations, in the same
+    order, as the cell formulas)"""
+    k = spec['k']
+    f = [inputs['outlay'], inputs['first']]
+    for i in range(2, k):
+        if spec['template'] == 'geo':
+            f.append(f[i - 1] * (1 + inputs['growth']))
+        elif spec['template'] == 'lin':
+            f.append(f[i - 1] + inputs['step'])
+        else:
+            f.append(f[1] * (1 + inputs['growth']) ** (i - 1) + inputs['step'])
+    d = [inputs['d0']]
+    for i in range(1, k):
+        d.append(d[i - 1] + inputs['gap'])
+    return f[:k], d
+
+
+def outlay_then_returns(vals):
+    return vals[0] < 0 and all(v >= 0 for v in vals[1:]) and sum(fr(v) for v in vals) > 0
+
+
+def history_case(ctx, res, sink, F, spec):
+    """One compiled model, evaluated, then re-evaluated after each set_cell_value of the history; every
+    financial cell is judged against the defining equation on the values the referenced cells have NOW."""
+    from xlcalculator import ModelCompiler, Evaluator
+    cells, addr, names = history_layout(spec)
+    inputs = dict(spec['inputs'])
+    with warnings.catch_warnings():
+        warnings.simplefilter('ignore')
+        try:
+            ev = Evaluator(ModelCompiler().read_and_parse_dict(dict(cells)))
+        except Exception as exc:  # noqa: BLE001
+            res.evaluations += 1
+            res.violations.append({'what': 'a scenario model with computed cash flows does not compile',
+                                   'input': dict(spec, fn='history'), 'expected': 'a model',
+                                   'got': 'X:' + type(exc).__name__})
+            return
+        for step_no, step in enumerate([None] + list(spec['steps'])):
+            if step is not None:
+                name, value = step
+                inputs[name] = value
+                got = call_real(lambda: ev.set_cell_value('Sheet1!' + names[name], value))
+                if got.startswith('X:'):
+                    res.evaluations += 1
+                    res.violations.append({'what': 'set_cell_value on an input of a scenario model raises',
+                                           'input': dict(spec, fn='history', at_step=step_no),
+                                           'expected': 'no exception', 'got': got})
+                    return
+            flows, dates = history_values(spec, inputs)
+            r, n_, pv_, fv_ = inputs['rate'], inputs['nper'], inputs['pv'], inputs['fv']
+            order = list(addr)
+            if spec.get('reverse'):
+                order.reverse()
+            real = {name: call_real(lambda a=addr[name]: ev.evaluate('Sheet1!' + a)) for name in order}
+            res.count('history-step')
+
+            def inp_of(name):
+                return dict(spec, fn='history', at_step=step_no, cell=name, formula=cells['Sheet1!' + addr[name]],
+                            current_flows=flows, current_dates=dates, current_inputs=dict(inputs))
+            tag = ' (model re-evaluated after set_cell_value on its inputs)' if step_no else ' (computed flows)'
+            sink.add(['NPV', w_frac(fr(r)), wl(flows)] + real_fields(real['NPV']),
+                     lambda d, line, i=inp_of('NPV'), x=real['NPV']: judge_value(
+                         res, 'NPV over a range of computed flows differs from sum c_i/(1+r)^i of the current '
+                              'cell values' + tag, i, x, d, line))
+            ws = pow_weights(1 + fr(r), [Fraction(d - dates[0], 365) for d in dates])
+            sink.add(['XNPV', w_frac(fr(r)), wl(flows), wl(dates), wl(ws)] + real_fields(real['XNPV']),
+                     lambda d, line, i=inp_of('XNPV'), x=real['XNPV']: judge_value(
+                         res, 'XNPV over ranges of computed flows and dates differs from the defining sum on the '
+                              'current cell values' + tag, i, x, d, line))
+            sink.add(['PMT', w_frac(fr(r)), w_frac(fr(n_)), w_frac(fr(pv_)), w_frac(fr(fv_)), '0']
+                     + real_fields(real['PMT']),
+                     lambda d, line, i=inp_of('PMT'), x=real['PMT']: judge_value(
+                         res, 'PMT of input cells differs from the annuity equation on the current cell values' + tag,
+                         i, x, d, line))
+            sink.add(['PV', w_frac(fr(r)), w_frac(fr(n_)), w_frac(fr(pv_)), w_frac(fr(fv_)), '1']
+                     + real_fields(real['PV']),
+                     lambda d, line, i=inp_of('PV'), x=real['PV']: judge_value(
+                         res, 'PV of input cells differs from the annuity equation on the current cell values' + tag,
+                         i, x, d, line))
+            sink.add(['SLN', w_frac(fr(pv_)), w_frac(fr(fv_)), w_frac(fr(n_))] + real_fields(real['SLN']),
+                     lambda d, line, i=inp_of('SLN'), x=real['SLN']: judge_value(
+                         res, 'SLN of input cells differs from (cost-salvage)/life of the current cell values' + tag,
+                         i, x, d, line))
+            # NPV(rate, later flows) + outlay = (1+r) * NPV(rate, all flows): the usual spreadsheet idiom
+            rest = num_of(real['NPVrest'])
+            allq = num_of(real['NPV'])
+            res.evaluations += 1
+            res.count('history:NPV+outlay')
+            gross = sum(abs(fr(v)) for v in flows) * max(1, (1 / (1 + fr(r))) ** len(flows)) * (2 + abs(fr(r)))
+            if rest is None or allq is None or not close(rest, (1 + fr(r)) * allq, gross):
+                res.violations.append({'what': 'NPV(r, c1..cn) + c0 is not (1+r) * NPV(r, c0..cn) on the same model'
+                                               + tag, 'input': inp_of('NPVrest'),
+                                       'expected': str((1 + fr(r)) * allq) if allq is not None else 'a number',
+                                       'got': real['NPVrest']})
+            if outlay_then_returns(flows) and pvsum(10, flows) < 0:
+                irr_case(res, sink, F, flows, 'history', real=real['IRR'], inp=inp_of('IRR'))
+                if xroot_le_10(flows, dates):
+                    xirr_case(ctx, res, sink, F, flows, dates, None, 'history', real=real['XIRR'],
+                              inp=inp_of('XIRR'))
+
+
+def rand_history(rng):
+    k = rng.randint(3, 12)
+    first = rng.choice([400.0, 100, 250.5, round(rng.uniform(10, 5000), 2), rng.randint(10, 5000)])
+    growth = rng.choice([0.05, 0.0, 0.1, -0.1, round(rng.uniform(-0.3, 0.6), 3)])
+    step = rng.choice([0, 10, -5, 25.5, round(rng.uniform(-20, 100), 2)])
+    template = rng.choice(['geo', 'geo', 'lin', 'pow'])
+    if template != 'lin' and rng.random() < 0.7:
+        step = 0
+    outlay = -round(first * rng.uniform(0.5, 0.9 * (k - 1)), 2)
+    spec = {'k': k, 'orient': rng.choice(['row', 'col']), 'template': template, 'abs': rng.random() < 0.5,
+            'reverse': rng.random() < 0.3,
+            'inputs': {'rate': rng.choice([0.08, 0.1, 0.05, round(rng.uniform(0.001, 0.5), 4)]),
+                       'growth': growth, 'step': step, 'gap': rng.choice([365, 30, 91, 1, 366, rng.randint(1, 500)]),
+                       'nper': rng.choice([1, 5, 10, 12, 60, 120]), 'pv': rng.choice([1000, 2500.5, 100000, 75.25]),
+                       'fv': rng.choice([0, -200, 50, 1000.75]), 'outlay': outlay, 'first': first,
+                       'd0': rng.randint(1000, 50000)},
+            'steps': []}
+    for _ in range(rng.randint(1, 4)):
+        name = rng.choice(['growth', 'growth', 'step', 'rate', 'first', 'outlay', 'gap', 'nper', 'pv', 'fv'])
+        value = {'growth': lambda: round(rng.uniform(-0.3, 0.6), 3),
+                 'step': lambda: round(rng.uniform(0, 100), 2),
+                 'rate': lambda: round(rng.uniform(0.001, 0.9), 4),
+                 'first': lambda: round(rng.uniform(10, 5000), 2),
+                 'outlay': lambda: -round(rng.uniform(10, 5000), 2),
+                 'gap': lambda: rng.randint(1, 500),
+                 'nper': lambda: rng.choice([2, 3, 6, 24, 36, 240]),
+                 'pv': lambda: round(rng.uniform(-10 ** 5, 10 ** 5), 2),
+                 'fv': lambda: round(rng.uniform(-10 ** 4, 10 ** 4), 2)}[name]()
+        spec['steps'].append([name, value])
+    return spec
+
+
+def sec_histories(ctx, res, sink, F, n):
+    """scenario analysis on one compiled model: cash-flow and date ranges whose members are formulas over
+    growth / step / gap input cells outside the ranges; evaluate, set_cell_value on inputs, evaluate again"""
+    rng = ctx.rng
+    demo = {'k': 7, 'orient': 'row', 'template': 'geo', 'abs': False, 'reverse': False,
+            'inputs': {'rate': 0.08, 'growth': 0.05, 'step': 0, 'gap': 365, 'nper': 10, 'pv': 1000, 'fv': -200,
+                       'outlay': -1500.0, 'first': 400.0, 'd0': 43831},
+            'steps': [['growth', 0.25], ['first', 150.0], ['growth', 0.6], ['rate', 0.12]]}
+    history_case(ctx, res, sink, F, demo)
+    for _ in range(n):
+        history_case(ctx, res, sink, F, rand_history(rng))
+
+
 def replay_case(ctx, res, sink, F, inp):
     fn = inp.get('fn')
     if fn == 'NPV':
@@ -811,6 +1238,14 @@ def replay_case(ctx, res, sink, F, inp):
         pv_pmt_case(res, F, inp['rate'], inp['nper'], inp['pv'], inp['fv'])
     elif fn == 'formula':
         formula_case(res, inp['cells'], inp['direct'], inp.get('kind', 'formula'))
+    elif fn == 'spelled':
+        spelled_case(res, sink, inp['kind'], inp['cells'], inp['req'], inp.get('what', 'formula result differs'))
+    elif fn == 'spelled-identity':
+        spelled_identity_case(res, inp['cells'], Fraction(inp['rate']), inp['nper'], Fraction(inp['pv']),
+                              Fraction(inp['fv']))
+    elif fn == 'history':
+        history_case(ctx, res, sink, F, {k: inp[k] for k in ('k', 'orient', 'template', 'abs', 'reverse', 'inputs',
+                                                             'steps') if k in inp})
     else:
         raise RuntimeError(f'cannot replay {inp!r}')
 
@@ -827,7 +1262,12 @@ def run(ctx):
         'years), the complete (rate,nper,pv,fv,type) grid plus random tuples and non-integral nper, (cost,salvage,'
         'life>0); IRR/XIRR flows with one sign change and positive sum whose root is <= 10. NPV/PMT/PV/SLN/XNPV: '
         'real vs exact reference within 1e-9 of the gross term size; IRR/XIRR: exact sign change of NPV/XNPV at '
-        'r-1e-6 / r+1e-6; linearity, rate-0 and PV(PMT) identities on the real code; a sample through formulas. '
+        'r-1e-6 / r+1e-6; linearity, rate-0 and PV(PMT) identities on the real code; a sample through formulas; '
+        'formulas with the rate/amount literals in random spellings (plain, no leading zero, percent, trailing '
+        'zero/dot, normalised scientific, signed, parenthesised; also as `=.08` cells read through a range) judged '
+        'against the reference on the denoted exact values; scenario histories (one compiled model with computed '
+        'flow/date ranges and NPV IRR XNPV XIRR PMT PV SLN cells, evaluated, then re-evaluated after each of 1..4 '
+        'set_cell_value steps) judged on the current cell values. '
         'non-trivial = distinct request with >= 2 flows / a non-zero amount / a certified root')
     sink = Sink()
 
@@ -861,6 +1301,8 @@ def run(ctx):
     timed('irr', sec_irr, ctx, res, sink, F, 15000 if thorough else 1500)
     timed('xirr', sec_xirr, ctx, res, sink, F, 12000 if thorough else 800)
     timed('formulas', sec_formulas, ctx, res, F, 1600 if thorough else 320)
+    timed('spellings', sec_spellings, ctx, res, sink, F, 7000 if thorough else 700)
+    timed('histories', sec_histories, ctx, res, sink, F, 1500 if thorough else 120)
     res.extra['section_seconds'] = timing
     res.exhaustive = True       # the (rate, nper, pv, fv, type) grid is enumerated completely
     res.extra['grid'] = {k: len(v) for k, v in (GRID_T if thorough else GRID_Q).items()}
